@@ -22,6 +22,8 @@ macro_rules! with_check {
             "C08" => { let $c: &'static thr::ThrCheck = &thr::C08; $body }
             "C09" => { let $c: &'static props::cmdprops::CmdCheck = &props::cmdprops::C09; $body }
             "C13" => { let $c: &'static props::cmdprops::CmdCheck = &props::cmdprops::C13; $body }
+            "C15" => { let $c: &'static cap::http::Http15 = &cap::http::C15; $body }
+            "C16" => { let $c: &'static cap::http::Http16 = &cap::http::C16; $body }
             "C17" => { let $c: &'static cap::kv::KvCheck = &cap::kv::C17; $body }
             "C18" => { let $c: &'static cap::time::TimeCheck = &cap::time::C18; $body }
             other => harness_error(&format!("unknown check {other}")),
